@@ -199,6 +199,54 @@ PROPS = {
         ],
         "assumptions": ["ranges that no diagnostic produces (e.g. ending inside the indentation of a continuation line, where `listing` would slice backwards) are outside the property and not generated"],
     },
+    "C03": {
+        "level": "translation_validation",
+        "streams": ["C03"],
+        "case_ms": 5000,
+        "rule": "generated programs (fully annotated, annotations omitted, `_` in types; base, function, dependent and computed types, "
+                "groups, polymorphic and dependent library-style programs) and, for each, two or three single-node perturbations (operand "
+                "kind swapped, type replaced, annotation dropped or altered, argument / condition / branch replaced, binder implicitness "
+                "flipped): every program the implementation ACCEPTS is validated - the extracted verified checker must infer a type for the "
+                "zonked elaborated term that it finds convertible with the zonked reported type. Non-trivial: accepted; distinct by text.",
+        "trusted_base": TB_COMMON + [
+            "the validator is Oracle/Infer.v (whnf, convb, infer), proved sound against Spec/Typing.v (infer_sound, convb_sound, whnf_sound); the typing rules themselves (Spec/Typing.v: has_type, conv, red; type : type; holes as opaque type constants) are the specification and are trusted to be the language's rules",
+            "hook H1 (feature verif): counter of unresolved holes met by `open`, used only to attribute a failure to the recorded finding D9",
+            "modelled, not verified: zonking (replacing a solved hole by its shifted solution) is done by the harness at export",
+        ],
+        "assumptions": ["soundness of the implementation's checker as a universal theorem is not claimed; the property is decided per accepted instance by a proved validator",
+                        "instances on which the validator runs out of fuel are inconclusive"],
+    },
+    "C04": {
+        "level": "translation_validation",
+        "streams": ["C04"],
+        "case_ms": 5000,
+        "rule": "generated terminating programs of base, function, dependent, computed and group-mentioning types: the implementation's value "
+                "is validated by the extracted verified checker at the program's reported type (inferred type convertible with it), and its "
+                "former must match the reported type's weak-head normal form (int -> literal, bool -> true/false, function type -> function, "
+                "type -> a type). Non-trivial: accepted and evaluated to a value; distinct by text.",
+        "trusted_base": TB_COMMON + [
+            "the validator is Oracle/Infer.v (whnf, convb, infer), proved sound against Spec/Typing.v (infer_sound, convb_sound, whnf_sound); the typing rules themselves (Spec/Typing.v: has_type, conv, red; type : type; holes as opaque type constants) are the specification and are trusted to be the language's rules",
+            "hook H1 (feature verif): counter of unresolved holes met by `open`, used only to attribute a failure to the recorded finding D9",
+            "modelled, not verified: zonking (replacing a solved hole by its shifted solution) is done by the harness at export",
+        ],
+        "assumptions": ["preservation as a universal theorem is not claimed (needs Pi-injectivity, hence confluence)"],
+    },
+    "C05": {
+        "level": "translation_validation",
+        "streams": ["C05"],
+        "case_ms": 5000,
+        "rule": "fully annotated programs from the type-directed generator plus polymorphic / higher-order / dependent / recursive-group "
+                "templates; each program whose parsed term the extracted verified checker certifies (so `well typed under the typing rules` "
+                "is established by a proved checker, not by trusting the generator) must be accepted with a type the checker finds "
+                "convertible with the certified one; for every accepted program the elaborated term (holes unresolved) must be the parsed "
+                "source term, cell for cell. Non-trivial: accepted; distinct by text.",
+        "trusted_base": TB_COMMON + [
+            "the validator is Oracle/Infer.v (whnf, convb, infer), proved sound against Spec/Typing.v (infer_sound, convb_sound, whnf_sound); the typing rules themselves (Spec/Typing.v: has_type, conv, red; type : type; holes as opaque type constants) are the specification and are trusted to be the language's rules",
+            "hook H1 (feature verif): counter of unresolved holes met by `open`, used only to attribute a failure to the recorded finding D9",
+            "modelled, not verified: zonking (replacing a solved hole by its shifted solution) is done by the harness at export",
+        ],
+        "assumptions": ["completeness of a unification-based checker is not provable here; the first sentence is decided per certified instance"],
+    },
 }
 
 NOT_APPLICABLE = {}
@@ -321,5 +369,29 @@ MANIFEST_TEXT = {
         "design_ref": "DESIGN.md section 4, C15; section 5 D10, D11, D17",
         "note": "Type diagnostics are required to mark the text of SOME subexpression node of the program (the exact node depends on the checker's rule).",
         "technique": "Coq proof on the listing model + rendering differential testing + re-parse-in-scope oracle on every node range + excerpt parse-back on single-fault programs",
+    },
+    "C03": {
+        "text": "Translation validation with a PROVED validator: the independent checker for explicitly typed terms (Coq, extracted) is "
+                "proved sound against declarative typing rules (infer_sound; axiom-free). Each program the implementation accepts is "
+                "certified by it at the reported type; a program it cannot certify is reported with the failing program as replay. "
+                "Perturbation streams aim at every unify side condition of the checker. One genuine violation class is a recorded finding (D9).",
+        "design_ref": "DESIGN.md section 3.3 and section 4, C03",
+        "note": "Per-instance certificates, not a theorem about type_checker.rs. Failures in programs where hook H1 fired are attributed to D9.",
+        "technique": "translation validation with a Coq-verified type checker (infer_sound) on accepted and perturbed generated programs",
+    },
+    "C04": {
+        "text": "The value the implementation computes is certified by the proved validator at the program's reported type, and its former "
+                "is compared with the type's weak-head normal form. Per-instance; the preservation theorem is not claimed.",
+        "design_ref": "DESIGN.md section 4, C04",
+        "note": "As C03.",
+        "technique": "translation validation of (value, reported type) pairs with a Coq-verified type checker",
+    },
+    "C05": {
+        "text": "Well-typedness of each fully annotated generated program is established by the proved validator on the parser's output; "
+                "the implementation must then accept it with a convertible type, and the elaborated term must equal the source term with "
+                "only cells filled (compared structurally, names and hole identities included).",
+        "design_ref": "DESIGN.md section 4, C05",
+        "note": "As C03; completeness is decided per certified instance.",
+        "technique": "certified generation (Coq-verified checker) + acceptance check + structural elaboration-identity comparison",
     },
 }
